@@ -252,6 +252,115 @@ func vfFullCase(f []string) string {
 	return strings.Join(out, " ")
 }
 
+// rws <lns|lac> <w|-> <k> <a>: the peer ADVERTISES a Receive Window Size of w in its SCCRQ (we are the LNS) or
+// SCCRP (we are the LAC; "-" = no RWS AVP, RFC 2661 4.4.3: assume 4) through the real establishment path
+// (Dispatch -> HandleSCCRQ / StartLACSession + handleSCCRP -> startTunnelRunner).  The peer then never
+// acknowledges anything beyond our first message, except: LNS: SCCCN, then k ICRQs, each answered with an ICRP;
+// the j-th ICRQ acknowledges min(j, a) ICRPs (so the congestion window opens a times).
+// LAC: the SCCRP handler itself sends SCCCN and ICRQ.  Observed: the distinct Ns of the non-ZLB messages that
+// left, how many of them are unacknowledged (in flight), and the channel's cwnd / ssthresh.
+func vfRwsCase(f []string) string {
+	n := func(s string) int { v, _ := strconv.Atoi(s); return v }
+	c := New(logger.Get("l2tp"))
+	peer := net.IPv4(10, 0, 0, 2).To4()
+	local := net.IPv4(10, 0, 0, 1).To4()
+	var mu sync.Mutex
+	var nss []uint16
+	c.SetSendControlFn(func(localIP, peerIP net.IP, lp, pp uint16, h l2tppkt.Header, body []byte) error {
+		if len(body) == 0 {
+			return nil
+		}
+		mu.Lock()
+		defer mu.Unlock()
+		for _, x := range nss {
+			if x == h.Ns {
+				return nil
+			}
+		}
+		nss = append(nss, h.Ns)
+		return nil
+	})
+	c.SetLNSConfigResolver(func(string) (LNSConfig, bool) {
+		return LNSConfig{LocalHostname: "lns", ReceiveWindowSize: 16, HelloInterval: time.Hour}, true
+	})
+	u16 := func(v int) []byte { return []byte{byte(v >> 8), byte(v)} }
+	avp := func(dst []byte, ty uint16, val []byte) []byte {
+		return l2tppkt.AppendAVP(dst, true, false, l2tppkt.VendorIETF, ty, val)
+	}
+	dispatch := func(tid, sid, ns, nr uint16, body []byte) error {
+		h := l2tppkt.NewControl(tid, sid, ns, nr)
+		wire := append(h.AppendTo(nil, len(body)), body...)
+		pkt := &dataplane.ParsedPacket{
+			Protocol: models.ProtocolL2TP,
+			IPv4:     &layers.IPv4{SrcIP: peer, DstIP: local},
+			UDP:      &layers.UDP{SrcPort: 1701, DstPort: 1701},
+		}
+		pkt.UDP.Payload = wire
+		return c.Dispatch(pkt)
+	}
+	var t *Tunnel
+	lastNr := uint16(1)
+	switch f[0] {
+	case "lns":
+		body := avp(nil, l2tppkt.AVPMessageType, u16(int(l2tppkt.MsgTypeSCCRQ)))
+		body = avp(body, l2tppkt.AVPHostName, []byte("lac"))
+		body = avp(body, l2tppkt.AVPAssignedTunnelID, u16(99))
+		if f[1] != "-" {
+			body = avp(body, l2tppkt.AVPReceiveWindowSize, u16(n(f[1])))
+		}
+		if err := dispatch(0, 0, 0, 0, body); err != nil {
+			return "sccrq-failed"
+		}
+		c.mu.RLock()
+		for _, x := range c.tunnels {
+			t = x
+		}
+		c.mu.RUnlock()
+		if t == nil || t.Channel == nil {
+			return "no-tunnel"
+		}
+		_ = dispatch(t.LocalID, 0, 1, 1, l2tppkt.BuildSCCCN(nil))
+		for j := 0; j < n(f[2]); j++ {
+			acks := j
+			if acks > n(f[3]) {
+				acks = n(f[3])
+			}
+			lastNr = uint16(1 + acks)
+			_ = dispatch(t.LocalID, 0, uint16(2+j), lastNr, l2tppkt.BuildICRQ(l2tppkt.ICRQParams{LocalSessionID: uint16(100 + j), CallSerialNumber: uint32(j)}))
+		}
+	case "lac":
+		if err := c.StartLACSession(LACBringUpRequest{PPPoESessionID: 7, LocalIP: local,
+			TunnelSpecs: []TunnelSpec{{ServerIP: peer}}}); err != nil {
+			return "lac-start-failed"
+		}
+		t = c.LookupTunnel(peer, 1)
+		if t == nil || t.Channel == nil {
+			return "no-tunnel"
+		}
+		body := avp(nil, l2tppkt.AVPMessageType, u16(int(l2tppkt.MsgTypeSCCRP)))
+		body = avp(body, l2tppkt.AVPHostName, []byte("lns"))
+		body = avp(body, l2tppkt.AVPAssignedTunnelID, u16(99))
+		if f[1] != "-" {
+			body = avp(body, l2tppkt.AVPReceiveWindowSize, u16(n(f[1])))
+		}
+		_ = dispatch(1, 0, 0, 1, body)
+	default:
+		return "badline"
+	}
+	c.stopTunnelRunner(t.PeerIP, t.LocalID)
+	mu.Lock()
+	defer mu.Unlock()
+	var l []string
+	infl := 0
+	for _, x := range nss {
+		l = append(l, strconv.Itoa(int(x)))
+		if x >= lastNr {
+			infl++
+		}
+	}
+	return fmt.Sprintf("ns=%s infl=%d cw=%d ss=%d", strings.Join(l, "."), infl, t.Channel.Cwnd(), t.Channel.Ssthresh())
+}
+
 func vfDispGuard(line string) string {
 	done := make(chan string, 1)
 	go func() {
@@ -263,6 +372,8 @@ func vfDispGuard(line string) string {
 		f := strings.Fields(line)
 		if len(f) >= 2 && f[0] == "disp" {
 			done <- vfDispCase(f[1:])
+		} else if len(f) == 5 && f[0] == "rws" {
+			done <- vfRwsCase(f[1:])
 		} else if len(f) >= 3 && f[0] == "full" {
 			done <- vfFullCase(f[1:])
 		} else if len(f) == 3 && f[0] == "sccrq" {
